@@ -756,8 +756,13 @@ func (s *Server) handlePAP(session *Session, data []byte) {
 		session.SetState(StateIPCPNegotiation)
 		s.startIPCPNegotiation(session)
 	} else {
-		// Terminate
+		// Terminate: give back whatever an earlier successful authentication
+		// allocated and drop the session
+		if s.clientIPPool != nil {
+			s.clientIPPool.Release(session.SessionID)
+		}
 		session.SetState(StateClosed)
+		s.sessions.RemoveSession(session.ID)
 	}
 }
 
